@@ -497,10 +497,10 @@ def main(argv: list[str]) -> int:
         states += r.distinct; transitions += r.generated
         cov[c] = dict(coverage_summary(r), states=r.distinct, transitions=r.generated)
     rm = tlc("MC_Incremental", "Mut_Incremental_NoIndirect.cfg", coverage=False)
-    if rm.violated != "FreshIsRight":
+    if rm.violated not in ("FreshIsRight", "OutEqualsCold"):
         raise MachineryError("specification mutant NoIndirect not rejected: %s %s" % (rm.violated, rm.error))
     rm2 = tlc("MC_Incremental", "Mut_Incremental_NoDepList.cfg", coverage=False)
-    if rm2.violated != "FreshIsRight":
+    if rm2.violated not in ("FreshIsRight", "OutEqualsCold"):
         raise MachineryError("specification mutant NoDepList not rejected: %s %s" % (rm2.violated, rm2.error))
     cov["spec_mutants_rejected"] = {"NoIndirect": rm.violated, "NoDepList": rm2.violated}
     # ---- 2. replay of every emitted history
